@@ -278,6 +278,12 @@ def natural_cases():
         add("devtty-no-ctty", f + "output = devtty", pre=["setsid"])
         add("config-unreadable", f + "output = file:{W}/log", pre=["confmode 000"], uid=U)
         add("stdin-closed-tty-sources", 'message_format = "%{tty} %{tty_uid} %{tty_username} %{ipaddr}"\noutput = file:{W}/log', pre=["stdin closed"])
+        # the log file has reached the caller's own file size limit (ulimit -f): the write raises SIGXFSZ, default = fatal
+        add("file-at-callers-size-limit", f + "output = file:{W}/bigfile", pre=["fsizelimit 67108864"])
+        # the caller's descriptor table is full (0, 1 and 2 free slots): every open/socket/fopen fails with EMFILE
+        for extra in (0, 1, 2):
+            add("fd-table-full+%d-file" % extra, f + "output = file:{W}/log", pre=["nofilelimit %d" % extra])
+            add("fd-table-full+%d-devlog" % extra, f + "output = devlog", pre=["nofilelimit %d" % extra])
         add("cwd-deleted", 'message_format = "%{cwd}"\noutput = file:{W}/log', pre=["chdir-deleted"])
     return c
 
@@ -303,6 +309,9 @@ def nat_script(c, B, s):
         ls.bind(os.path.join(w, "streamsock"))
         ls.listen(1)
         os.makedirs(os.path.join(w, "gone"), exist_ok=True)
+        with open(os.path.join(w, "bigfile"), "wb") as bf:
+            bf.truncate(67108864)           # sparse, exactly at the limit the state sets
+        os.chmod(os.path.join(w, "bigfile"), 0o666)
         B.keep = (fs, snd, ls)
     s.fork(c["id"])
     s.raw("stdin pty")
